@@ -122,6 +122,7 @@ type vc04Gate struct {
 	want     int
 	inside   int
 	locked   int // entries during which sidMu was held
+	waiting  int // handlers blocked in the gate right now
 	finished int
 	timeout  bool
 	release  chan struct{}
@@ -141,9 +142,69 @@ func (g *vc04Gate) IsMixedAccessSVLAN(svlan uint16) bool {
 		g.locked++
 	}
 	ch := g.release
+	g.waiting++
 	g.mu.Unlock()
 	<-ch
+	g.mu.Lock()
+	g.waiting--
+	g.mu.Unlock()
 	return false
+}
+
+// vc04PADRStates classifies the goroutines that are inside handlePADR by what they are blocked in:
+// w = sessionMu.Lock (about to index), r = sessionMu.RLock (inside the allocator's scan), m = a plain Mutex (sidMu)
+func vc04PADRStates() (w, r, m int) {
+	buf := make([]byte, 1<<20)
+	buf = buf[:runtime.Stack(buf, true)]
+	for _, gr := range strings.Split(string(buf), "\n\n") {
+		if !strings.Contains(gr, "handlePADR") {
+			continue
+		}
+		switch {
+		case strings.Contains(gr, "sync.(*RWMutex).Lock"):
+			w++
+		case strings.Contains(gr, "sync.(*RWMutex).RLock"):
+			r++
+		case strings.Contains(gr, "sync.(*Mutex).Lock"):
+			m++
+		}
+	}
+	return
+}
+
+// probe: the harness holds sessionMu as a READER, so a handler that has allocated its id and wants to index blocks in
+// sessionMu.Lock().  Once every handler is blocked somewhere (or has returned) the state is inspected: allocation and
+// indexing form one critical section iff, while one handler waits to index, NO other handler is inside the allocator
+// and sidMu is held.  This does not depend on where any hook call sits in handlePADR.
+func (w *vc04World) probeReservation(n int) string {
+	deadline := time.Now().Add(3 * time.Second)
+	for {
+		w.gate.mu.Lock()
+		fin, waiting := w.gate.finished, w.gate.waiting
+		w.gate.mu.Unlock()
+		if fin >= n {
+			return "none"
+		}
+		bw, br, bm := vc04PADRStates()
+		if bw >= 1 && bw+br+bm+fin+waiting >= n {
+			// settled: look again to be sure nobody moved
+			bw2, br2, bm2 := vc04PADRStates()
+			if bw2 == bw && br2 == br && bm2 == bm {
+				if br > 0 || bw > 1 {
+					return "free"
+				}
+				if w.c.sidMu.TryLock() {
+					w.c.sidMu.Unlock()
+					return "free"
+				}
+				return "held"
+			}
+		}
+		if time.Now().After(deadline) {
+			return "timeout"
+		}
+		time.Sleep(200 * time.Microsecond)
+	}
 }
 
 func vc04BlockedPADR() int {
@@ -820,7 +881,9 @@ func (w *vc04World) op1(tok string) string {
 		w.gate.mu.Lock()
 		w.gate.armed, w.gate.want, w.gate.inside, w.gate.locked, w.gate.finished, w.gate.timeout, w.gate.release =
 			true, n, 0, 0, 0, false, make(chan struct{})
+		w.gate.waiting = 0
 		w.gate.mu.Unlock()
+		c.sessionMu.RLock() // harness reader: see probeReservation
 		var wg sync.WaitGroup
 		for i := 0; i < n; i++ {
 			mac := []byte{0x0a, 0, 0, 0, byte(i >> 8), byte(i)}
@@ -834,10 +897,12 @@ func (w *vc04World) op1(tok string) string {
 			}()
 		}
 		go w.gate.supervise()
+		probe := w.probeReservation(n)
+		c.sessionMu.RUnlock()
 		wg.Wait()
 		w.gate.mu.Lock()
 		w.gate.armed = false
-		gateInfo := fmt.Sprintf("/g%d.%d", w.gate.locked, w.gate.inside)
+		gateInfo := fmt.Sprintf("/g%d.%d/p%s", w.gate.locked, w.gate.inside, probe)
 		if w.gate.timeout {
 			gateInfo += ".TIMEOUT"
 		}
